@@ -52,9 +52,14 @@ def gen_mmspec(rng, k=0, rich=True):
         for _ in range(rng.choice([0, 1, 2, 3]) if rich else rng.choice([0, 1])):
             t = rng.choice(ATTR_TYPES + [e['name'] for e in sp.enums] * 2)
             many = rng.random() < .35
+            lit = None
+            if not many and rng.random() < .3:
+                # a default given as literal text (what an .ecore file carries), for the types whose text is obvious
+                lit = {'EString': 'anon', 'EInt': '7', 'EIntegerObject': '7', 'ELong': '-3', 'EBoolean': 'true',
+                       'EBooleanObject': 'true', 'EDouble': '1.5', 'EDoubleObject': '1.5', 'EShort': '2'}.get(t)
             sp.feats.append(dict(owner=c['name'], name=fname(), kind='attr', type=t, many=many, ordered=True,
                                  unique=(rng.random() < .5) if many else True, cont=False, opp=None, id=False,
-                                 default_lit=None))
+                                 default_lit=lit, late_type=(rng.random() < .25)))
     if rng.random() < .4:
         c = rng.choice(sp.classes)
         sp.feats.append(dict(owner=c['name'], name='ident', kind='attr', type='EString', many=False, ordered=True, unique=True,
@@ -108,7 +113,14 @@ def build(sp):
         up = -1 if f['many'] else 1
         if f['kind'] == 'attr':
             t = enums.get(f['type']) or getattr(E, f['type'])
-            ef = E.EAttribute(f['name'], t, upper=up, ordered=f['ordered'], unique=f['unique'], iD=f['id'])
+            if f.get('late_type'):
+                # the type assigned after the attribute exists, as a loader or a builder does
+                ef = E.EAttribute(f['name'], upper=up, ordered=f['ordered'], unique=f['unique'], iD=f['id'])
+                ef.eType = t
+            else:
+                ef = E.EAttribute(f['name'], t, upper=up, ordered=f['ordered'], unique=f['unique'], iD=f['id'])
+            if f.get('default_lit') is not None:
+                ef.defaultValueLiteral = f['default_lit']
         else:
             ef = E.EReference(f['name'], classes[f['type']], upper=up, ordered=f['ordered'], unique=f['unique'],
                               containment=f['cont'])
